@@ -6,7 +6,7 @@ const hx_script *hx_cur_script = NULL;
 static htp_connp_t *hx_connp = NULL;
 
 const char *const hx_cba_names[] = { "NONE", "DECLINED", "STOP", "ERROR", "REGHOOKS", "DESTROY_OTHER", "DESTROY_SELF" };
-const char *const hx_site_names[HX_SITE__MAX] = { "?", "RES_HDR_LFCR", "RES_COMPLETE_EARLY_DATA_OTHER", "DECOMP_RESTART" };
+const char *const hx_site_names[HX_SITE__MAX] = { "?", "RES_HDR_LFCR", "RES_COMPLETE_EARLY_DATA_OTHER", "DECOMP_RESTART", "RES_LINE_AS_BODY" };
 
 void hx_verdict_add(const char *prop, const char *kind, const char *fmt, ...) {
     hx_obs *o = hx_cur;
@@ -87,7 +87,19 @@ static void monitor_cb(hx_txrec *r, htp_tx_t *tx, int kind, const uint8_t *data,
     r->prog[0] = rp; r->prog[1] = sp;
 
     int side, rk = rank_of(kind, &side);
-    if (side >= 0) {
+    int is_raw = (kind == CB_REQ_HEADER_DATA || kind == CB_REQ_TRAILER_DATA || kind == CB_RES_HEADER_DATA || kind == CB_RES_TRAILER_DATA);
+    int is_marker = ((kind == CB_REQ_BODY || kind == CB_RES_BODY || kind == CB_REQ_BODY_TX || kind == CB_RES_BODY_TX) && has_data && data == NULL && len == 0);
+    if (is_marker) {
+        /* the end-of-body marker is produced by the completion step (after a trailer, if any); it only has to
+         * precede the side's COMPLETE callback */
+        if (r->rank[side] >= 5)
+            hx_verdict_add("C05", "marker_after_complete", "tx %d side %d: end-of-body marker after the side's COMPLETE", ord, side);
+    } else if (is_raw) {
+        /* raw block data is flushed per chunk and finalised on either side of the block's hook: it is
+         * not ordered against the hooks, it only must not arrive after the side completed */
+        if (r->rank[side] >= 5)
+            hx_verdict_add("C05", "raw_after_complete", "tx %d side %d: raw data callback %c after the side's COMPLETE", ord, side, kind);
+    } else if (side >= 0) {
         if (rk < r->rank[side]) {
             if (side == 1 && kind == CB_RES_LINE && r->last_status == 100 && r->rank[1] <= 2) {
                 /* documented restart after an interim 100 response */
@@ -101,10 +113,10 @@ static void monitor_cb(hx_txrec *r, htp_tx_t *tx, int kind, const uint8_t *data,
     switch (kind) {
         case CB_RES_LINE: r->last_status = tx->response_status_number; break;
         case CB_REQ_BODY:
-            if (has_data && data == NULL) r->end_markers[0]++; else { r->body_len[0] += (int64_t) len; }
+            if (has_data && data == NULL && len == 0) r->end_markers[0]++; else { r->body_len[0] += (int64_t) len; }   /* data==NULL,len>0 is a gap */
             break;
         case CB_RES_BODY:
-            if (has_data && data == NULL) r->end_markers[1]++; else { r->body_len[1] += (int64_t) len; }
+            if (has_data && data == NULL && len == 0) r->end_markers[1]++; else { r->body_len[1] += (int64_t) len; }
             break;
         case CB_REQ_COMPLETE:
             if (++r->n_req_complete > 1) hx_verdict_add("C05", "req_complete_twice", "REQUEST_COMPLETE delivered %d times for tx %d", r->n_req_complete, ord);
